@@ -23,7 +23,9 @@ ASSUMPTIONS = ['time-stamps are expressed in the default unit of the specificati
 TOLS = (Fr(0), Fr(1, 8), Fr(1, 4), Fr(1, 2), Fr(1))
 # (period value, period unit, default unit or None)
 CONFIGS = ((1, 's', None), (500, 'ms', 's'), (500, 'ms', 'ms'), (1, 's', 'ms'), (2, 's', 's'), (250000, 'us', 'ms'),
-           (1, 'ms', 'us'), (125, 'ms', 's'))
+           (1, 'ms', 'us'), (125, 'ms', 's'),
+           # periods of a few ns with time-stamps in ns that carry sub-nanosecond fractions (the internal time base of rtamt is 1 ns)
+           (4, 'ns', 'ns'), (2, 'ns', 'ns'), (1, 'us', 'ns'))
 U = {'s': 10 ** 9, 'ms': 10 ** 6, 'us': 10 ** 3, 'ns': 1}
 
 
